@@ -130,8 +130,8 @@ func newWriterLoop(c *kit.Ctx, m *storeModel, w *pointWriter) *writerLoop {
 
 // valuation of one merge-loop iteration.
 type mergeVal struct {
-	rows   int    // 0 or 1 stored row
-	eqType bool   // meaningful when rows == 1
+	rows   int  // 0 or 1 stored row
+	eqType bool // meaningful when rows == 1
 	eqKey  bool
 	order  string // "lt" (stored older), "eq", "gt" (stored newer)
 	kempty bool   // incoming key is ""
